@@ -1,6 +1,6 @@
 prop("C03", "c03.cpp", [V("plain"), V("asan+reduced", flags=["-DVF_C03_REDUCED"])], PLAIN_ASAN,
      explain="every unit sequence over class-boundary alphabets, bare and behind a heap-forcing prefix, every truncation of well-formed text, empty and null inputs, through every conversion in every mode; outcome class, size vs reference size, terminator, allocator canaries, fill-pattern independence, guard-page over-read detection",
-     bounds={"quick": "A8^<=4, A16^<=4, A32^<=4 all routes bare + prefixed; A8^5, A16^5 primary routes; all 256^2 byte pairs; all 16-bit units in 3 contexts; all truncations of all encodings of B^<=3; (nullptr,0); position sweep to 300 units (Latin-1 sources included); the 16-bit wchar_t template variants; static-initialisation battery; position x alignment stage; process-locale battery",
+     bounds={"quick": "A8^<=4, A16^<=4, A32^<=4 all routes bare + prefixed; A8^5, A16^5 primary routes; all 256^2 byte pairs; all 16-bit units in 3 contexts; all truncations of all encodings of B^<=3; (nullptr,0); position sweep to 300 units (Latin-1 sources included); the 16-bit wchar_t template variants; static-initialisation battery; position x alignment stage; process-locale battery; process-exit battery",
              "thorough": "^<=5 all routes bare + prefixed, A8^6, core^8, A16^6, truncations of B^<=4; plain and ASan+UBSan"},
      deadline={"quick": 600, "thorough": 3300})
 
